@@ -97,7 +97,15 @@ func cmdVerify(args []string) {
 	g := mustLoad()
 	keys := fs.Args()
 	if len(keys) == 0 {
-		keys = g.sortedContractKeys()
+		for _, k := range g.sortedContractKeys() {
+			fc := g.contracts.Funcs[k]
+			// inline-only blocks (loop invariants of functions verified in the context of their callers), trusted contracts and
+			// interface contracts have no body of their own to verify
+			if fc.Inline || fc.Trusted || g.funcs[k] == nil {
+				continue
+			}
+			keys = append(keys, k)
+		}
 	}
 	bad := 0
 	if len(fs.Args()) == 0 {
